@@ -486,6 +486,61 @@ func chainHistory(m *mon.M, r *rand.Rand, idx, blocks int) {
 		}
 		i++
 	}
+	// late delivery (fault injection on the sub->dom message): the pending ETXs / rollup of one block reach the
+	// dominant chain only after that chain has already tried to append a coincident block and refused it for
+	// lack of data; once the data is there the same block must append, and nothing may be lost or reordered
+	late := func(lvl int) bool {
+		a.N.HoldPendingEtxs = lvl
+		ok := step(lvl)
+		a.N.HoldPendingEtxs = 0
+		if !ok {
+			return false
+		}
+		mm, err := a.Step(hnet.MineOpts{WantOrder: lvl - 1})
+		if err == nil {
+			// the dominant chain did not need the held data for this block
+			canon = append(canon, mm)
+			orders = append(orders, mm.Order)
+			m.Eval(fmt.Sprintf("late-delivery:level%d:dom-append-did-not-need-it", lvl), mm.Hash.Hex())
+			if err := a.N.ReleaseHeld(); err != nil {
+				m.Violation("late-delivery:release-failed", err.Error(), wit)
+				return false
+			}
+		} else {
+			if mm == nil || mm.AppendErr == nil {
+				m.Violation("own-block-rejected", err.Error(), wit)
+				return false
+			}
+			first := mm.AppendErr.Error()
+			if err := a.N.ReleaseHeld(); err != nil {
+				m.Violation("late-delivery:release-failed", err.Error(), wit)
+				return false
+			}
+			if err := a.N.Redeliver(mm); err != nil {
+				m.Violation("late-delivery:block-still-refused-after-data-arrived", fmt.Sprintf("level %d data held; first append: %s; after delivery: %v", lvl, first, err), wit)
+				return false
+			}
+			canon = append(canon, mm)
+			orders = append(orders, mm.Order)
+			m.Eval(fmt.Sprintf("late-delivery:level%d:refused-then-appended", lvl), mm.Hash.Hex())
+		}
+		if err := a.N.Settle(); err != nil {
+			m.Violation("own-block-not-executable", "after late delivery: "+err.Error(), wit)
+			return false
+		}
+		wit["orders"] = orders
+		return true
+	}
+	for _, lvl := range []int{2, 1, 2, 1} {
+		for k := 0; k < 2; k++ {
+			if !step(2) {
+				return
+			}
+		}
+		if !late(lvl) {
+			return
+		}
+	}
 	if !walk(m, a.N, a.N.Heads()[2], "linear", wit, 30) {
 		return
 	}
